@@ -419,6 +419,17 @@ def oracle(ck: Check, tier, deep):
         except Exception:
             continue
         if (pr * c + pc + 1) not in kept:
+            # the requested point lies in what the trimming removes: it cannot land at the centre — the call must say so, not move another point
+            try:
+                out = center_image(im, method=tuple(o), odd_size=odd, square=sq, crop=crop)
+                if out.size and out[out.shape[0] // 2, out.shape[1] // 2] == 0 and (odd or sq):
+                    ck.violation(dict(sig, clause="explicit-origin-trimmed-away"), rep,
+                                 f"the requested point {(pr, pc)} is removed by the odd_size/square trimming, yet the call returned a {out.shape} image "
+                                 "centred about some other point")
+            except ValueError:
+                pass
+            except Exception as e:
+                ck.violation(dict(sig, clause="exception"), rep, f"{type(e).__name__}: {e}")
             continue
         try:
             out = center_image(im, method=tuple(o), odd_size=odd, square=sq, crop=crop)
